@@ -16,7 +16,7 @@ CHECKS = {
          "List-valued save targets are read as comma-joined names; Literal-valued numeric fields, SaveMode.SELECTED and external-module testbenches are recorded only; sampled."),
  "C18": ("exploration", "model-based (stateful) property testing: generated operation sequences on a Module / Bundle executed in lock step with a model dict; invariant checked after every step",
          "Sequences of setattr / add / add(name=) / re-add / get and negative operations over a five-name alphabet with values of every attribute kind are applied to a Module or Bundle and to a model dict; after every step the namespace, every per-kind view, get(), attribute access, port listing and parent links must agree with the model, negative operations must raise without effect, the final module must export exactly the model's content, refuse additions after elaboration, and equal the class-style definition of the same content.",
-         "Fresh object per operation (no aliasing); reserved names through add() and post-'elaboration' additions to Bundles are recorded only; sampled histories of up to 30 steps."),
+         "Objects are also assigned under a second name (alias) and lent to another module and handed back; what a module still holding an aliased / renamed / lent object exports as is not asserted; reserved names through add() and post-'elaboration' additions to Bundles are recorded only; sampled histories of up to 30 steps."),
  "C19": ("exploration", "exhaustive enumeration of (n, unit cell, ordered series pair, call form) for Series / MosStack / Wrapper; oracle = documented chain evaluated by the reference interpreter, compared up to isomorphism",
          "Every n up to N, every unit cell of the family (primitives with 2-4 ports, external modules, modules with bus, bundle and oddly ordered ports), every ordered pair of distinct scalar ports given by name, by Signal or mixed, MosStack with default and given units and Wrapper of every unit are generated and exported; the package must be isomorphic to the documented chain / wrapper topology written as a spec; nser < 1 must raise.",
          "Complete for the stated bounds (N=6 quick, 12 thorough); identical unit instances make the comparison rely on the isomorphism search."),
@@ -36,17 +36,17 @@ CHECKS = {
          "Designs are exported once to learn the names the elaborator invents per module; designer signals, ports, instances, bundle instances and no-connect names are then renamed onto those names (and '_' variants); the renamed design must raise or export a package with pairwise distinct names that is isomorphic to the reference interpreter's circuit.",
          "Relies on the reference interpreter being name-agnostic; top-level bundle ports are made internal so port names are designer-chosen; sampled."),
  "C06": ("exploration", "property-based testing plus corpus sweep: closure checker (validity predicate over every exported package) and acceptance by from_proto and the vlsirtools netlisters",
-         "Every package obtained from generated designs, the examples and built-in generators over their parameter ranges, and PDK-compiled designs is checked for closure (names, definition order, targets, port sets, bit ranges, widths) and must be accepted by from_proto and the spice and spectre netlisters.",
+         "Every package obtained from generated designs, adversarially named designs, the examples and built-in generators over their parameter ranges, PDK-compiled designs, and whatever to_proto returns for ill-formed designs (C02 fault planter) is checked for closure (names, definition order, targets, port sets, bit ranges, widths) and must be accepted by from_proto and the spice and spectre netlisters.",
          "Closure rules read from the VLSIR schema; netlisters are not run on packages that reference hdl21.primitives (they reject those by design)."),
  "C07": ("exploration", "history-based property testing: enumerated and Hypothesis-sampled histories of construct/elaborate/to_proto/netlist calls per generated design DAG, each in a pristine process; oracle = byte equality with the baseline history",
-         "For generated design DAGs every order of single-module elaborations (lazy and eager construction), every ordered pair as one list call, netlist calls and sampled longer mixed histories are run in separate pristine processes; the final package must be byte-identical to the one-shot export, exporting again must change nothing and elaborated modules must refuse additions.",
+         "For generated design DAGs every order of single-module elaborations (lazy and eager construction), every ordered pair as one list call, netlist calls and sampled longer mixed histories are run in separate pristine processes; the final package must be byte-identical to the one-shot export, exporting again must change nothing, elaborated modules must refuse additions (also ones re-using existing names) and export unchanged afterwards.",
          "DAGs of at most 5 modules; orders complete for n<=4, 60 sampled orders for n=5; netlister refusals inside a history are ignored."),
  "C08": ("fault_enumeration", "fault-injection property testing: enumerated (fault, continuation) pairs per generated design, faults injected through the public custom-pass-list API, C02 design faults and raising generator bodies; oracle = differential against a pristine process",
          "Every (pass position, module) and every (rewriting pass, module, k-th helper call) of each generated design is made to fail, as are one design fault per class and generator bodies/naming; after each failure five continuations run in the same process and whatever they return must be byte-identical to a pristine process's result, retries must repeat the original error, unrelated and non-offending designs must export normally, failed generator calls must run again.",
          "Faults are injected with subclasses of the real passes (own class-level caches); 'repair' of an injected fault is switching it off; raising forever for the offending module is accepted."),
  "C09": ("exploration", "property-based testing of generator memoisation and naming over generated param-class shapes and adversarial value pairs, with a body call counter and cross-process name comparison",
          "For generated param-class shapes and pairs of value assignments (biased to near-collisions) fresh generators are declared in pristine processes: equal parameters must give the identical module with one body run (also after the result was dropped and garbage collected), unequal ones distinct modules with distinct names; a parent instantiating both must export; names must not change after first return nor differ between three process histories.",
-         "Parameter equality = Python equality of validated instances cross-checked with exact values; Module/Generator-valued parameters come from pools of distinctly named objects; sampled."),
+         "Parameter equality = Python equality of validated instances cross-checked with exact values; Module-valued parameters come from a pool that includes same-named modules from two libraries and same-named external modules in two domains; first calls aborted by Exceptions / BaseExceptions and uncached pass-through generators are part of the patterns; sampled."),
  "C10": ("exploration", "exhaustive enumeration of a bounded family of bundle-definition trees plus Hypothesis-generated deeper trees; oracle = reference flattener written from the statement",
          "For every tree of the enumerated family and sampled deeper/wider trees the exported module's ports (name, width, direction) and internal signals are compared with a reference flattener (names by path, parity of flips for declared ports, role source/sink rule, plain leaves undirected, internal instances -> signals); bundle connections are checked with the C01 isomorphism oracle.",
          "Trusts the reference flattener's reading of the statement (role directions not flipped); enumerated family complete only within its stated bounds."),
@@ -55,9 +55,9 @@ CHECKS = {
          "Protobuf equality; tops recovered as un-instantiated imported modules in package order; sampled."),
  "C12": ("exploration", "differential testing across real processes: generated designs run under sampled PYTHONHASHSEED values, batch permutations and allocation histories; oracle = identical digests",
          "Batches of generated designs and the corpus are executed by real python subprocesses with different hash seeds, orders and amounts of unrelated earlier allocation / elaboration; the SHA-256 of the deterministic package serialisation and of the spice, spectre and verilog netlists must agree across all workers.",
-         "Samples a few dozen hash seeds and histories per design: cannot show absence of hash-order dependence; generator concentrates on constructs that iterate over back-reference sets."),
+         "Samples a few dozen hash seeds and histories per design: cannot show absence of hash-order dependence; every other worker discards and collects each design (address re-use, incl. churn designs placed on re-used anonymous-bundle addresses); hand-written corner designs ride along in every third batch."),
  "C13": ("exploration", "property-based testing (Hypothesis) of parameter export and to_scalar against a reference encoder written from the statement",
-         "Generated parameter assignments for all 21 primitives and dict/paramclass/Scalar external modules are exported with to_proto and every exported ParamValue (kind, digits, prefix, text, double bits, omission of None, VLSIR primitive name and pulse renaming) is compared with a reference encoder; to_scalar is checked on every value form.",
+         "Generated parameter assignments for all 21 primitives and dict/paramclass/Scalar external modules are exported with to_proto and every exported ParamValue (kind, digits, prefix, text, double bits, omission of None, VLSIR primitive name and pulse renaming) is compared with a reference encoder; to_scalar is checked on every value form; order cases require a value to export byte-for-byte as it does alone in a fresh process whatever was exported before it (as another module or another instance of the same module).",
          "Trusts Decimal/Fraction and protobuf accessors; ambiguous strings and Decimal-typed external parameters are recorded only; sampling."),
  "C14": ("exploration", "property-based testing (Hypothesis) plus exhaustive enumeration of the 441 prefix pairs x mantissa set, oracle = fractions.Fraction arithmetic",
          "Every +,-,*,neg,abs,scale,conversion, the six comparisons, hash, int and float of generated operand pairs is compared with exact rational arithmetic; the prefix-pair box is complete, mantissas are sampled.",
